@@ -51,6 +51,7 @@ pub struct Loc {
     pub exp: bool,
     pub mac: Option<String>,
     pub desugar: Option<String>,
+    pub outer_mac: Option<String>,
 }
 
 pub fn loc_of(tcx: TyCtxt<'_>, span: Span) -> Loc {
@@ -65,6 +66,15 @@ pub fn loc_of(tcx: TyCtxt<'_>, span: Span) -> Loc {
             _ => {}
         }
     }
+    // the macro the user wrote (outermost expansion), e.g. `debug_assert` for the panic inside `debug_assert!(..)`
+    let mut outer_mac = None;
+    if exp {
+        for ed in span.macro_backtrace() {
+            if let rustc_span::ExpnKind::Macro(_, name) = ed.kind {
+                outer_mac = Some(name.to_string());
+            }
+        }
+    }
     let cs = span.source_callsite();
     let sm = tcx.sess.source_map();
     let lo = sm.lookup_char_pos(cs.lo());
@@ -75,7 +85,7 @@ pub fn loc_of(tcx: TyCtxt<'_>, span: Span) -> Loc {
         },
         other => format!("{:?}", other),
     };
-    Loc { file, line: lo.line, col: lo.col.0 + 1, exp, mac, desugar }
+    Loc { file, line: lo.line, col: lo.col.0 + 1, exp, mac, desugar, outer_mac }
 }
 
 fn loc_json(l: &Loc) -> String {
@@ -88,7 +98,7 @@ fn loc_json(l: &Loc) -> String {
         2
     };
     let name = l.mac.as_deref().or(l.desugar.as_deref());
-    format!("[{},{},{},{}]", l.line, l.col, kind, opt_s(name))
+    format!("[{},{},{},{},{}]", l.line, l.col, kind, opt_s(name), opt_s(l.outer_mac.as_deref()))
 }
 
 struct Cx<'tcx> {
